@@ -61,6 +61,9 @@ fn main() {
 
 struct ModelSecp {
 	proofs: HashMap<(i64, i64), RangeProof>,
+	/// further valid proofs of the same commitment, (v, r, variant > 0): a commitment created twice
+	/// inside one aggregation family may carry a different proof each time (C12)
+	alt_proofs: HashMap<(i64, i64, i64), RangeProof>,
 	kernels: HashMap<String, TxKernel>,
 	commits: HashMap<Vec<u8>, (i64, i64)>,
 	kernel_ids: HashMap<Hash, i64>,
@@ -111,6 +114,7 @@ impl ModelSecp {
 	fn new() -> ModelSecp {
 		ModelSecp {
 			proofs: HashMap::new(),
+			alt_proofs: HashMap::new(),
 			kernels: HashMap::new(),
 			commits: HashMap::new(),
 			kernel_ids: HashMap::new(),
@@ -147,6 +151,29 @@ impl ModelSecp {
 		p
 	}
 
+	/// A second, third, ... valid proof of the commitment (v, r): same value and blinding, other nonces.
+	fn proof_variant(&mut self, v: i64, r: i64, pv: i64) -> RangeProof {
+		if pv == 0 {
+			return self.proof(v, r);
+		}
+		if let Some(p) = self.alt_proofs.get(&(v, r, pv)) {
+			return *p;
+		}
+		let k = scalar(r).expect("output blinding must be non-zero");
+		let mut nb = [11u8; 32];
+		nb[0..8].copy_from_slice(&(v as u64).to_be_bytes());
+		nb[8..16].copy_from_slice(&(r as u64).to_be_bytes());
+		nb[16..24].copy_from_slice(&(pv as u64).to_be_bytes());
+		let secp = static_secp_instance();
+		let secp = secp.lock();
+		let nonce = SecretKey::from_slice(&secp, &nb).expect("nonce");
+		let p = secp.bullet_proof(v as u64 * UNIT, k, nonce.clone(), nonce, None, None);
+		drop(secp);
+		self.alt_proofs.insert((v, r, pv), p);
+		self.proofs_made += 1;
+		p
+	}
+
 	fn output(&mut self, o: &Value) -> Output {
 		let v = o["v"].as_i64().unwrap();
 		let r = o["r"].as_i64().unwrap();
@@ -154,7 +181,8 @@ impl ModelSecp {
 		let pf = o["pf"].as_bool().unwrap();
 		let c = self.commit(v, r);
 		// a bad proof is a perfectly good proof of a different commitment
-		let p = if pf { self.proof(v, r) } else { self.proof(v + 1, r) };
+		let pv = o.get("pv").and_then(|x| x.as_i64()).unwrap_or(0);
+		let p = if pf { self.proof_variant(v, r, pv) } else { self.proof(v + 1, r) };
 		if !pf {
 			self.forged_outputs.insert((c.0.to_vec(), p.proof.to_vec()));
 		}
@@ -471,13 +499,50 @@ fn hydrate_case(ms: &mut ModelSecp, bl: &Value, txs: &[Transaction]) -> Value {
 		total_kernel_offset: blind(bl["prev"].as_i64().unwrap()),
 		..Default::default()
 	};
-	let b = match Block::from_reward(&prev, txs, reward_out, reward_kern, grin_core::pow::Difficulty::min_dma()) {
-		Ok(b) => b,
-		Err(e) => return json!({"res": "err", "err": format!("{:?}", e)}),
+	// The block is built from the transactions as given (flat) and, when the case lists `builds`,
+	// from each of those groupings as well (a miner aggregating pre-aggregated pool entries): every
+	// build whose parts exist must give the same body and total offset. Hydration below is run on
+	// the first block that could be built.
+	let mut build_plans: Vec<Value> = vec![json!((0..txs.len()).collect::<Vec<usize>>())];
+	if let Some(bs) = bl.get("builds").and_then(|b| b.as_array()) {
+		build_plans.extend(bs.iter().cloned());
+	}
+	let mut builds = vec![];
+	let mut reference: Option<(usize, Block)> = None;
+	for (bi, g) in build_plans.iter().enumerate() {
+		let parts: Result<Vec<Transaction>, _> = g.as_array().unwrap().iter().map(|p| eval_plan(p, txs)).collect();
+		let parts = match parts {
+			Ok(p) => p,
+			Err(e) => {
+				builds.push(json!({"res": "parts_err", "err": format!("{:?}", e)}));
+				continue;
+			}
+		};
+		match Block::from_reward(&prev, &parts, reward_out, reward_kern, grin_core::pow::Difficulty::min_dma()) {
+			Ok(b) => {
+				let mut r = json!({"res": "ok"});
+				match &reference {
+					Some((_, rb)) => {
+						r["same_body"] = json!(rb.body == b.body && body_bytes(&rb.body) == body_bytes(&b.body));
+						r["same_total"] = json!(rb.header.total_kernel_offset == b.header.total_kernel_offset);
+						if r["same_body"] != json!(true) {
+							r["proj"] = ms.proj_body(&b.body);
+						}
+					}
+					None => reference = Some((bi, b)),
+				}
+				builds.push(r);
+			}
+			Err(e) => builds.push(json!({"res": "err", "err": format!("{:?}", e)})),
+		}
+	}
+	let (ref_ix, b) = match reference {
+		Some(x) => x,
+		None => return json!({"res": "err", "err": builds[0]["err"], "builds": builds}),
 	};
 	let (bv, bverr) = class(catch_unwind(AssertUnwindSafe(|| b.validate(&prev.total_kernel_offset))));
 	let mut res = json!({"res": "ok", "proj": ms.proj_body(&b.body), "total": ms.proj_offset(&b.header.total_kernel_offset),
-		"valid": bv, "verr": bverr});
+		"valid": bv, "verr": bverr, "builds": builds, "ref": ref_ix});
 	let want_bytes = body_bytes(&b.body);
 	let mut hyd = vec![];
 	for g in bl["groupings"].as_array().unwrap() {
@@ -493,7 +558,7 @@ fn hydrate_case(ms: &mut ModelSecp, bl: &Value, txs: &[Transaction]) -> Value {
 		let parts = match parts {
 			Ok(p) => p,
 			Err(e) => {
-				hyd.push(json!({"res": "err", "err": format!("pre-aggregate {:?}", e)}));
+				hyd.push(json!({"res": "parts_err", "err": format!("{:?}", e)}));
 				continue;
 			}
 		};
